@@ -63,6 +63,7 @@ type Contract struct {
 	FreshResult bool
 	Sequential bool   // invariant conjuncts are proved in order, each assuming the earlier ones
 	BitsDef bool      // give bits()/sbits() at symbolic positions their byte-arithmetic definition (default: range only)
+	RenamedFrom string // the name the function had on the unchanged tree, when the contract was rebound
 	Opaque  []string  // predicates whose definitions are hidden except in clauses marked {reveal P}
 	Uses    []*Clause // lemma instantiations assumed at entry (each must be a proved lemma/axiom instance)
 	NoTerm  string    // reason why a loop of this function has no termination measure (service loop)
